@@ -36,7 +36,7 @@ var profC10 = ConcProfile{
 		Pop: 15, Prio: true, Text: 1, Rm: 25, AbortW: 2, Ext: 10,
 		SyncDecors: 1, PlainDecors: 1, Wraps: true, Fillers: []string{"tag", "bar"}, EwmaPct: 20, Listeners: 10, BuiltinPct: 50,
 	},
-	MaxBlocks: 8, MaxBlockOps: 16, Pars: 2, CancelIn: 0, PerturbMax: 2, HoldPct: 50, SyncPct: 30, WriteBoost: 8,
+	MaxBlocks: 8, MaxBlockOps: 16, Pars: 2, CancelIn: 12, PerturbMax: 2, HoldPct: 50, SyncPct: 30, WriteBoost: 8,
 }
 
 func genC10(t *rapid.T) interface{} {
@@ -231,7 +231,15 @@ func runC10(ci interface{}) Result {
 		dumpHang(sc, tr)
 		return r
 	}
-	r.Classes = append(r.Classes, "refresh:"+sc.Cfg.Refresh)
+	r.Classes = append(append(r.Classes, "refresh:"+sc.Cfg.Refresh), featureClasses(sc)...)
+	if tr.CancelSeq != 0 {
+		// a cancelled container aborts its bars from the side at a moment of its own
+		// choosing: the sequential rules are silent about that. These histories
+		// (clients still operating while everything shuts down and the final
+		// refresh runs) are here for the race detector.
+		r.Classes = append(r.Classes, "cancelled")
+		return r
+	}
 	// per-bar histories
 	byBar := map[int][]engine.CallRec{}
 	for _, c := range tr.Calls {
